@@ -4,6 +4,7 @@ import (
 	"fmt"
 	"reflect"
 	"sort"
+	"strings"
 	"testing"
 	"time"
 
@@ -69,6 +70,13 @@ func c17Make(goType string, value bool, pub, upd time.Time, id string) ap.Item {
 			f.Set(reflect.ValueOf(far))
 		}
 	}
+	// what an item embeds has its own instants, which are not the item's: an activity is as old as it is, not as old as what it wraps
+	for _, n := range []string{"Object", "Actor", "Target", "Attachment", "InReplyTo", "Replies", "First"} {
+		if f := p.Elem().FieldByName(n); f.IsValid() && f.Kind() == reflect.Interface {
+			var inner ap.Item = &ap.Object{ID: ap.IRI(id + "/embedded-in-" + strings.ToLower(n)), Type: ap.NoteType, Published: far, Updated: far.Add(time.Hour)}
+			f.Set(reflect.ValueOf(&inner).Elem())
+		}
+	}
 	if value {
 		return p.Elem().Interface().(ap.Item)
 	}
@@ -81,7 +89,7 @@ func TestC17(t *testing.T) {
 	r.Rule("lattice: all ordered triples over 36 objects (published x updated from {zero, T, T in another zone, T+1h, T-1h, T+1h in another zone}) + nil + typed nil, under three identity policies " +
 		"(pairwise distinct ids over all Go types; one id and type for all = versions of one object; no ids); " +
 		"laws: irreflexive, asymmetric, transitive, transitive incomparability, agreement with the reference comparator (later of published/updated, nil before any object); " +
-		"every item also carries startTime/endTime (a Tombstone its deleted instant) decades after or before its published/updated, which must not move it; random: objects of all 13 object-like types in pointer and value forms, random instants, plus sorting a permutation with sort.SliceStable vs the reference order. " +
+		"every item also carries startTime/endTime (a Tombstone its deleted instant) decades after or before its published/updated, and embeds objects with instants of their own in object/actor/target/attachment/inReplyTo/replies/first, none of which may move it; random: objects of all 13 object-like types in pointer and value forms, random instants, plus sorting a permutation with sort.SliceStable vs the reference order. " +
 		"non-trivial triple = >= 2 distinct keys and >= 1 object whose updated is later than published; distinct by the triple")
 
 	t0 := time.Date(2023, 5, 6, 7, 8, 9, 0, time.UTC)
